@@ -1281,9 +1281,6 @@ func (c *kase) finish(stuck bool) {
 				subRetAt = e.AtUS
 			}
 		}
-		if closeRetAt >= 0 && callAt >= 0 && closeRetAt-callAt > 1000000 {
-			r.Count(fmt.Sprintf("DEBUG_slow_shardmod%d_%s_%s_%s", r.Shard%4, c.spec.Wrapper, c.spec.Transport, c.spec.Pos.Kind), 1)
-		}
 		if closeRetAt >= 0 && callAt >= 0 {
 			r.Count("close_to_close_return_"+bucket(time.Duration(closeRetAt-callAt)*time.Microsecond), 1)
 		}
